@@ -1,6 +1,7 @@
 import Witverif.Abi.Gen
 import Witverif.Abi.Validate
 import Witverif.Text.Heck
+import Witverif.Generated.CDtor
 /-
 The C backend's profile of the shared ABI generator (crates/c/src/lib.rs `impl Bindgen for
 FunctionBindgen`):
@@ -281,54 +282,86 @@ def cFreesObserved (late : Bool) (p : Nat) (m : Spec.Mem) (t : Ty) (a : Nat) : L
 
 /-! ### the destructor export of an exported resource (`type_resource`) -/
 
-/-- `format!("{module}#[dtor]{name}")` (the resource's WIT name verbatim; before /repo 97de409 this
-was the snake-cased name) -/
-def cDtorExportName (module name : List Char) : List Char :=
-  module ++ "#[dtor]".toList ++ name
+open Witverif.Generated.CDtor in
+/-- one segment of the extracted `format!` string -/
+def evalSeg (module name : String) : Witverif.Generated.CDtor.Seg → String
+  | .lit s => s
+  | .module => module
+  | .name => name
+  | .snake => String.ofList (Witverif.Text.Heck.snake name.toList)
+  | .other v => "{" ++ v ++ "}"
+
+/-- the `__export_name__` of the destructor: the format string extracted from crates/c/src/lib.rs
+(`Generated/CDtor.lean`) applied to `module = name_world_key(key)` and the resource's WIT name -/
+def cDtorExportName (module name : String) : String :=
+  (Witverif.Generated.CDtor.dtorExportFormat.map (evalSeg module name)).foldl (· ++ ·) ""
 
 end Witverif.Abi.CProfile
 
 namespace Witverif.Abi.CProfileSpec
 open Witverif.Abi Witverif.Abi.CProfile
 
+/-- all of `f a`, `f (a+sz)`, … (`n` times) -/
+def manyAll (f : Nat → Bool) (sz a : Nat) : Nat → Bool
+  | 0 => true
+  | n + 1 => f a && manyAll f sz (a + sz) n
+
 mutual
-/-- the memory a value owns: `(pointer, length)` of the buffer of every string, list and map reachable
-in the value of type `t` stored at `a` whose length is not zero (buffer first, then what its elements own) -/
-def ownedBuffers (p : Nat) (m : Spec.Mem) : Ty → Nat → List (Nat × Nat)
-  | .string, a => if m.loadLE (a + p) p > 0 then [(m.loadLE a p, m.loadLE (a + p) p)] else []
-  | .list e, a =>
-      let ptr := m.loadLE a p
-      let n := m.loadLE (a + p) p
-      if n > 0 then (ptr, n) :: freesMany (ownedBuffers p m e) (elemSize p e) ptr n else []
+/-- every `option` discriminant reachable in the value of type `t` stored at `a` is 0 or 1 — what
+`Spec.load` accepts (the generated helper tests `is_some` for non-zero, the spec for `== 1`) -/
+def optTagsOk (p : Nat) (m : Spec.Mem) : Ty → Nat → Bool
+  | .list e, a => manyAll (optTagsOk p m e) (elemSize p e) (m.loadLE a p) (m.loadLE (a + p) p)
   | .map k v, a =>
       let ptr := m.loadLE a p
       let n := m.loadLE (a + p) p
       let esz := elemSize p (.tuple [k, v])
       let vo := alignTo (elemSize p k) (alignment p v)
-      if n > 0 then (ptr, n) :: freesMany (fun x => ownedBuffers p m k x ++ ownedBuffers p m v (x + vo)) esz ptr n else []
-  | .record fs, a => ownedBuffersFields p m fs a 0
-  | .tuple ts, a => ownedBuffersFields p m ts a 0
+      manyAll (optTagsOk p m k) esz ptr n && manyAll (optTagsOk p m v) esz (ptr + vo) n
+  | .record fs, a => optTagsOkFields p m fs a 0
+  | .tuple ts, a => optTagsOkFields p m ts a 0
   | .variant cs, a =>
       let tag := discriminant cs.length
-      ownedBuffersCase p m cs (m.loadLE a tag.size) (a + payloadOffset p tag cs)
+      optTagsOkCase p m cs (m.loadLE a tag.size) (a + payloadOffset p tag cs)
   | .option t, a =>
-      if m.loadLE a 1 != 0 then ownedBuffers p m t (a + payloadOffset p .u8 [none, some t]) else []
+      m.loadLE a 1 == 0 || (m.loadLE a 1 == 1 && optTagsOk p m t (a + payloadOffset p .u8 [none, some t]))
   | .result ok err, a =>
       let po := a + payloadOffset p .u8 [ok, err]
-      if m.loadLE a 1 == 0 then ownedBuffersOpt p m ok po else ownedBuffersOpt p m err po
-  | _, _ => []
-def ownedBuffersFields (p : Nat) (m : Spec.Mem) : List Ty → Nat → Nat → List (Nat × Nat)
-  | [], _, _ => []
+      if m.loadLE a 1 == 0 then optTagsOkOpt p m ok po else optTagsOkOpt p m err po
+  | _, _ => true
+def optTagsOkFields (p : Nat) (m : Spec.Mem) : List Ty → Nat → Nat → Bool
+  | [], _, _ => true
   | t :: ts, a, cur =>
       let o := alignTo cur (alignment p t)
-      ownedBuffers p m t (a + o) ++ ownedBuffersFields p m ts a (o + elemSize p t)
-def ownedBuffersOpt (p : Nat) (m : Spec.Mem) : Option Ty → Nat → List (Nat × Nat)
-  | none, _ => []
-  | some t, a => ownedBuffers p m t a
-def ownedBuffersCase (p : Nat) (m : Spec.Mem) : List (Option Ty) → Nat → Nat → List (Nat × Nat)
-  | [], _, _ => []
-  | c :: _, 0, a => ownedBuffersOpt p m c a
-  | _ :: cs, i + 1, a => ownedBuffersCase p m cs i a
+      optTagsOk p m t (a + o) && optTagsOkFields p m ts a (o + elemSize p t)
+def optTagsOkOpt (p : Nat) (m : Spec.Mem) : Option Ty → Nat → Bool
+  | none, _ => true
+  | some t, a => optTagsOk p m t a
+def optTagsOkCase (p : Nat) (m : Spec.Mem) : List (Option Ty) → Nat → Nat → Bool
+  | [], _, _ => true
+  | c :: _, 0, a => optTagsOkOpt p m c a
+  | _ :: cs, i + 1, a => optTagsOkCase p m cs i a
+end
+
+mutual
+/-- every list element type / map entry type occurring in `t` has a non-zero size (no list of empty
+tuples): then "the buffer is non-empty" and "the length is non-zero" coincide -/
+def elemsPos (p : Nat) : Ty → Bool
+  | .list e => decide (0 < elemSize p e) && elemsPos p e
+  | .map k v => decide (0 < elemSize p (.tuple [k, v])) && elemsPos p k && elemsPos p v
+  | .flist e _ | .option e => elemsPos p e
+  | .record fs | .tuple fs => elemsPosAll p fs
+  | .variant cs => elemsPosCases p cs
+  | .result a b => elemsPosOpt p a && elemsPosOpt p b
+  | _ => true
+def elemsPosAll (p : Nat) : List Ty → Bool
+  | [] => true
+  | t :: ts => elemsPos p t && elemsPosAll p ts
+def elemsPosOpt (p : Nat) : Option Ty → Bool
+  | none => true
+  | some t => elemsPos p t
+def elemsPosCases (p : Nat) : List (Option Ty) → Bool
+  | [] => true
+  | c :: cs => elemsPosOpt p c && elemsPosCases p cs
 end
 
 mutual
@@ -351,7 +384,4 @@ def noSharedCases : List (Option Ty) → Bool
   | c :: cs => noSharedOpt c && noSharedCases cs
 end
 
-/-- legacy core export name of a resource destructor (`Resolve::wasm_export_name`,
-`WasmExport::ResourceDtor`): the resource's WIT name verbatim -/
-def dtorExportName (module name : List Char) : List Char := module ++ "#[dtor]".toList ++ name
 end Witverif.Abi.CProfileSpec
